@@ -126,6 +126,24 @@ pub fn ty_kind(ty: &Ty) -> &'static str {
     }
 }
 
+thread_local! {
+    static SIDE: std::cell::RefCell<Vec<(Fail, Vec<DV>)>> = std::cell::RefCell::new(vec![]);
+}
+/// Record a failure that reproduces a *known* misdescription without failing the case (the
+/// campaign for the root type goes on); at most one per (check, at) is kept until drained.
+pub fn side_fail(f: Fail, vals: &[DV]) {
+    SIDE.with(|s| {
+        let mut s = s.borrow_mut();
+        let at = f.extra.get("at").cloned();
+        if !s.iter().any(|(g, _)| g.check == f.check && g.extra.get("at").cloned() == at) {
+            s.push((f, vals.to_vec()));
+        }
+    })
+}
+pub fn take_side() -> Vec<(Fail, Vec<DV>)> {
+    SIDE.with(|s| std::mem::take(&mut *s.borrow_mut()))
+}
+
 pub fn run_case(prop: &str, b: &Batch, ri: usize, vals: &[DV], k: usize, st: &mut Stats, counting: bool) -> Result<(), Fail> {
     match prop {
         "C01" => c01_case(b, ri, vals, k, st, counting),
@@ -252,15 +270,18 @@ pub fn c02_case(b: &Batch, ri: usize, vals: &[DV], _k: usize, st: &mut Stats, co
         let x = ops.normalize(x);
         for v in versions(b, ty) {
             let ex = json!({"version": v});
+            // (the value-level model sees a documented writer refusal even where the byte-level
+            // reference stops earlier at a leaf whose encoding is private)
+            let refuses = matches!(u.after_reload(ty, v, &x), Err(EncErr::WriterRejects(_)));
             let reference = match u.enc(ty, v, &x) {
-                Ok(a) => Some(a),
-                Err(EncErr::WriterRejects(_)) => {
+                Ok(a) if !refuses => Some(a),
+                Err(EncErr::NoExp(_)) if !refuses => None,
+                Ok(_) | Err(EncErr::NoExp(_)) | Err(EncErr::WriterRejects(_)) => {
                     if counting {
                         *st.excluded.entry("version_where_documented_writer_refuses".into()).or_insert(0) += 1;
                     }
                     continue;
                 }
-                Err(EncErr::NoExp(_)) => None,
             };
             let bare = expect_ok(ops.write_vec(Container::Bare, PathK::Single, v, &[x.clone()]), "bare_serialize", ex.clone())?;
             let nos = expect_ok(ops.write_vec(Container::NoSchema, PathK::Single, v, &[x.clone()]), "save_noschema", ex.clone())?;
@@ -319,7 +340,8 @@ pub fn c02_case(b: &Batch, ri: usize, vals: &[DV], _k: usize, st: &mut Stats, co
                     return Err(fail("wire_bytes", m, json!({"version": v, "library": hex(&bare), "reference": hex(&r.bytes)})));
                 }
                 // independent writer: the library must read what the reference encoder wrote
-                let want = u.after_reload(ty, v, &x).ok();
+                // (re-normalised: set elements that become equal after defaulting collapse)
+                let want = u.after_reload(ty, v, &x).ok().map(|w| ops.normalize(&w));
                 if let Some(want) = want {
                     let mut file = header(v, false);
                     file.extend_from_slice(&r.bytes);
@@ -576,7 +598,18 @@ pub fn replay(args: &Args, batches: &[Batch], path: &str) -> i32 {
     let vals: Vec<DV> = serde_json::from_value(case["values"].clone()).unwrap();
     let k = case["prefix_len"].as_u64().unwrap_or(3) as usize;
     let mut st = Stats::default();
-    match run_case(&prop, b, ri, &vals, k, &mut st, false) {
+    let _ = take_side();
+    let r = run_case(&prop, b, ri, &vals, k, &mut st, false);
+    // failures recorded on the side (known misdescriptions): the replay file names which one
+    let want_at = case["extra"]["at"].as_str().unwrap_or("").to_string();
+    let r = match r {
+        Ok(()) => match take_side().into_iter().find(|(f, _)| Some(f.check.as_str()) == case["failed_check"].as_str() && f.extra["at"].as_str().unwrap_or("") == want_at) {
+            Some((f, _)) => Err(f),
+            None => Ok(()),
+        },
+        e => e,
+    };
+    match r {
         Ok(()) => {
             println!("replay {}: case passes", path);
             0
